@@ -730,8 +730,13 @@ package io
 //@ func (*structEncoder).Write
 //@   prop C14
 //@   havoc
+//@   flag bounds=panic
+//@   flag typeassert=panic
+//@   requires valenc != nil && enc != nil && n >= 0
 //@   modifies ghost.held[*]
 //@ func (*structDecoder).decodeField
 //@   prop C14
 //@   havoc
+//@   use decwf
+//@   requires valdec != nil
 //@   modifies ghost.*
